@@ -220,7 +220,14 @@ pub fn run(ctx: &Ctx) -> i32 {
     let n_regular = cases.len();
     cases.extend(large_cases(tier));
     let roles_all = Roles { u: true, xi: true, p: true, ab: true, xi_moderate: true, xi_ladder: false };
-    let mut acc = par_for(cases.len(), |i, acc| {
+    let mut lpt: Vec<usize> = (0..cases.len()).collect();
+    lpt.sort_by_key(|&i| {
+        let g = &cases[i].g;
+        let l = g.loop_number(g.full());
+        std::cmp::Reverse((l * l * g.ne() * g.ne(), i))
+    });
+    let mut acc = par_for(cases.len(), |item, acc| {
+        let i = lpt[item];
         let case = match Case::new(&cases[i]) {
             Some(c) => c,
             None => return,
